@@ -38,21 +38,17 @@ QUICK_I = [
     ("i_tet3", 0, 1, [D221, ROT45, I1, SHEAR]),        # interstitial first; host species on 2 Wyckoff positions; 3 species
     ("i_b2", 0, 1, [D2, SKEW, I1]),                    # interstitial first; binary host
     ("i_hex", 0, 2, [D221, ORTHOHEX, SHEAR]),
-    ("fccoct", 2, 1, [D221, CUB, I1]),                 # tetrahedral sites, octahedral sublattice stays empty? (no: host)
-    ("hcpoct", 1, 1, [D221, ORTHOHEX, SKEW]),
-    ("i_ortho", 0, 2, [D212, SHEAR]),
+    ("fccoct", 2, 1, [D221, CUB, I1]),                 # tetrahedral diffuser; host and octahedral species stay filled
+    ("hcpoct", 1, 1, [D221, SKEW]),
     ("monodeco", 1, 2, [D122, SKEW]),
-    ("omega", 0, 2, [D221, SHEAR]),
 ]
 # (world, vacancy sublattice, jump shell, Nthermo, supercell matrices)
 QUICK_V = [
     ("fcc", 0, 1, 1, [D3, CUB2, I1, SKEW]),
     ("b2", 0, 1, 1, [D3, ROT45]),                      # binary host
     ("sc", 0, 1, 1, [D5, D2]),                         # D5: large enough, no warning expected
-    ("l12", 1, 1, 1, [D2, SHEAR]),                     # vacancy sublattice listed second, 3 sites
     ("omega", 0, 1, 1, [D221, D2]),                    # vacancy sublattice with two inequivalent sites
-    ("i_hex", 1, 1, 1, [D221, ORTHOHEX]),              # ternary crystal, vacancy species on 2 Wyckoff positions
-    ("hcp", 0, 2, 1, [D3, SKEW]),
+    ("i_hex", 1, 1, 1, [D221]),                        # ternary crystal, vacancy species listed second, 2 Wyckoff positions
 ]
 
 THOROUGH_I = [
@@ -60,12 +56,14 @@ THOROUGH_I = [
     ("tet2", 0, 1, [D2, ROT45, I1]), ("tet2", 1, 1, [D2, SHEAR]), ("tric2", 0, 2, [D2, SKEW]), ("l12", 1, 1, [D2, ROT45]),
     ("perov", 2, 1, [D2, ROT45, I1]), ("perov", 0, 1, [D2, SKEW]), ("rocksalt", 1, 1, [D2, CUB]),
     ("i_fcc", 0, 1, [D3, CUB2, I1]), ("diamond", 0, 1, [D2, CUB]), ("b2", 1, 1, [D3, SKEW]),
+    ("i_ortho", 0, 2, [D212, SHEAR]), ("omega", 0, 2, [D221, SHEAR]), ("hcpoct", 1, 1, [ORTHOHEX]),
 ]
 THOROUGH_V = [
     ("bcc", 0, 1, 1, [D3, SKEW]), ("diamond", 0, 1, 1, [D2, CUB]), ("rocksalt", 1, 1, 1, [D3, CUB2]),
     ("perov", 2, 1, 1, [D2, ROT45]), ("fcc", 0, 1, 2, [D3, CUB2]), ("sc", 0, 1, 2, [D3, ROT45]),
     ("hcp", 0, 2, 2, [D221]), ("tetra", 0, 2, 1, [D3, SKEW]), ("wurtzite", 0, 2, 1, [D2]), ("i_tet3", 1, 1, 1, [D2, ROT45]),
-    ("tet2", 0, 2, 1, [D2, ROT45]), ("b2", 0, 1, 1, [D221]),
+    ("tet2", 0, 2, 1, [D2, ROT45]), ("b2", 0, 1, 1, [D221]), ("l12", 1, 1, 1, [D2, SHEAR]), ("hcp", 0, 2, 1, [D3, SKEW]),
+    ("i_hex", 1, 1, 1, [ORTHOHEX]),
     ("fccoct", 0, 1, 1, [D2, CUB2]), ("b2", 1, 1, 1, [D2, SKEW]),
 ]
 
@@ -187,7 +185,7 @@ def configurations(ctx):
         out.append(("vacancy", hs.world(name), chem, shell, nth, [np.array(S) for S in mats]))
     # random decorated 3D worlds (2-3 species, low symmetry: many inequivalent Wyckoff positions), random
     # sublattices of index 1..8 in a random description
-    nrand_i, nrand_v = (6, 1) if ctx.tier == "quick" else (60, 14)
+    nrand_i, nrand_v = (4, 1) if ctx.tier == "quick" else (60, 14)
     for n in range(nrand_i + nrand_v):
         # (vacancy calculators on low-symmetry crystals with many atoms take minutes to build: at most 3 atoms)
         w = worlds.random_world(rng, dim=3, maxatoms=4 if n < nrand_i else 3, nspecies=rng.choice((2, 2, 3)))
@@ -217,12 +215,21 @@ def run(ctx):
     cases, meta = [], []
     built = {"interstitial": 0, "vacancy": 0}
     for (kind, w, chem, shell, nth, mats) in configurations(ctx):
-        fam = hs.family(w.get("name", "?"))
-        try:
-            s = hs.interstitial(w, chem, shell, rng) if kind == "interstitial" else hs.vacancy(w, chem, shell, nth, rng)
-        except Exception as ex:      # noqa: BLE001 -- building the calculator is not C29's subject
-            ctx.info("skipped_%s_%s_chem%d" % (kind, w.get("name"), chem), "%s: %s" % (type(ex).__name__, str(ex)[:80]))
+        s = None
+        for attempt in range(4):
+            try:
+                s = hs.interstitial(w, chem, shell, rng) if kind == "interstitial" else hs.vacancy(w, chem, shell, nth, rng)
+                break
+            except Exception as ex:      # noqa: BLE001 -- building the calculator is not C29's subject
+                ctx.info("skipped_%s_%s_chem%d" % (kind, w.get("name"), chem), "%s: %s" % (type(ex).__name__, str(ex)[:80]))
+                if not w.get("name", "").startswith("rnd-"):
+                    break
+                # a random decoration without a percolating first-shells network: draw another one
+                w = worlds.random_world(rng, dim=3, maxatoms=3, nspecies=rng.choice((2, 2, 3)))
+                chem = rng.randrange(len(w["basis"]))
+        if s is None:
             continue
+        fam = hs.family(w.get("name", "?"))
         built[kind] += 1
         for S in mats:
             setting = "%s|%s|chem%d|%s" % (kind, fam, chem, hs.smat_tag(S))
@@ -246,21 +253,26 @@ def run(ctx):
     import time
     t_tlc = time.time()
     ctx.info("wall_s_recording", round(t_tlc - ctx.t0, 1))
-    fails, infos, results = tlc.run_cases("Check_C29", cases, shards=12 if ctx.tier == "quick" else 14, timeout=2400)
+    fails, infos, results = tlc.run_cases("Check_C29", cases, shards=8 if ctx.tier == "quick" else 14, timeout=2400)
     ctx.info("wall_s_tlc", round(time.time() - t_tlc, 1))
+    ctx.info("wall_s_tlc_shards", [round(r.wall, 1) for r in results])
     for r in results:
         ctx.add_model(r)
+    hs.require_all_fails_read(results)
     model = sorted({cl for v in fails.values() for cl in v if cl.startswith("model_")})
     if model:
         raise tlc.TLCError("model-level theorem(s) %s failed" % model)
     stats = {"states": 0, "transitions": 0, "entries_mapped": 0, "entries_unmapped": 0, "entries_nonidentity": 0,
              "settings_too_small": 0, "settings_warned": 0, "settings_warned_without_aliasing": 0,
+             "settings_aliased_only_on_the_cell_boundary": 0, "records_with_content_clauses_demanded": 0,
              "settings_host_species_on_several_Wyckoff_positions": 0, "settings_three_or_more_species": 0}
     for ci, (kind, fam, setting, w, wkinds, nwy) in enumerate(meta):
         c = cases[ci]
         inf = infos.get(ci, {})
         small = bool(inf.get("toosmall", False))
         stats["settings_too_small"] += small
+        stats["settings_aliased_only_on_the_cell_boundary"] += bool(inf.get("aliased", False)) and not small
+        stats["records_with_content_clauses_demanded"] += int(inf.get("fits", 0))
         stats["settings_warned"] += c["nwarn"] > 0
         stats["settings_warned_without_aliasing"] += (c["nwarn"] > 0 and not small)
         stats["settings_host_species_on_several_Wyckoff_positions"] += nwy > 1
@@ -282,12 +294,14 @@ def run(ctx):
                 nonid = nonid or e["none"]
             ctx.case("%s|t|%s" % (setting, t["tag"]), nontrivial=nonid)
         for cl in sorted(set(fails.get(ci, []))):
-            name, _, where = cl.partition("@")
-            if where.startswith("s"):
-                rec = c["states"][int(where[1:]) - 1]
+            name, lev, j, end = hs.split_clause(cl)
+            if end:
+                name += {"i": "(initial)", "f": "(final)"}.get(end, end)
+            if lev == "s":
+                rec = c["states"][j - 1]
                 level, what = "state", "state %r: occ=%s order=%s" % (rec["tag"], rec["occ"], rec["order"])
-            elif where.startswith("t"):
-                rec = c["trans"][int(where[1:]) - 1]
+            elif lev == "t":
+                rec = c["trans"][j - 1]
                 level = rec["typ"]
                 what = "transition %r: initial %s / final %s / transmapping %s" % (
                     rec["tag"], rec["a"], rec["b"],
